@@ -291,36 +291,28 @@ func genC12(g *Gen, tier string, w *bufio.Writer) {
 	}
 	I := func(i int64) string { return "i" + strconv.FormatInt(i, 10) }
 
-	// ---- like: exhaustive small pairs
+	// ---- like: exhaustive small pairs: ALL (p, s) with |p| <= 2 and |s| <= 2 symbols of the alphabet (361 201 pairs)
 	pats := c12words(c12alpha, 2)
 	subs := c12words(c12alpha, 2)
-	if thorough {
-		pats = c12words(c12alpha, 3)
+	for _, p := range pats {
+		for _, s := range subs {
+			op("like", c12es(s), c12es(p))
+		}
 	}
 	if thorough {
-		// |p| <= 3 against a reduced subject alphabet keeps the product tractable; |p| <= 2 against all |s| <= 2
+		// all |p| = 3 against all |s| <= 1, and a seeded eighth of |p| = 3 x (|s| <= 3 over a reduced subject alphabet)
 		red := c12words([]string{"a", "b", "*", "\n", "é", "%", "\\", "\xff"}, 3)
-		for _, p := range pats {
+		for _, p := range c12words(c12alpha, 3) {
+			if len([]rune(p)) != 3 {
+				continue
+			}
+			for _, s := range c12words(c12alpha, 1) {
+				op("like", c12es(s), c12es(p))
+			}
 			for _, s := range red {
-				if len([]rune(p)) == 3 && g.Intn(4) != 0 {
-					continue
+				if g.Intn(8) == 0 {
+					op("like", c12es(s), c12es(p))
 				}
-				op("like", c12es(s), c12es(p))
-			}
-		}
-		for _, p := range c12words(c12alpha, 2) {
-			for _, s := range subs {
-				op("like", c12es(s), c12es(p))
-			}
-		}
-	} else {
-		// quick: all |p| <= 2 x |s| <= 1, and a seeded third of |p| <= 2 x |s| = 2
-		for _, p := range pats {
-			for _, s := range subs {
-				if len([]rune(s)) == 2 && g.Intn(6) != 0 {
-					continue
-				}
-				op("like", c12es(s), c12es(p))
 			}
 		}
 	}
